@@ -48,6 +48,8 @@ MCProgs(st) ==
     << Op("NR"), Rl(4096), Op("NR"), Rl(512), Op("NR") >>,
     << Op("NR"), Rd(1), Op("NR"), Op("RA"), Op("NR") >>,
     << Op("NR"), Rd(2), Rd(125), Op("RA"), Op("RM"), Op("RM") >>,
+    << Op("WCL"), Op("RM"), Op("RM"), Op("RM") >>,
+    << Op("NR"), Rd(1), Op("WCL"), Op("RA"), Op("RM"), Op("WCL"), Op("RM") >>,
     << Op("RJ"), Op("RJ"), Op("RJ") >>,
     << Op("RJ"), Op("NR"), Rd(1), Op("RJ"), Op("RM") >>,
     << Op("RM"), Op("RJ"), Ja(0) >>,
